@@ -294,6 +294,8 @@ def canon_model(res):
 
 def same_outcome(impl, model, err_classes=False):
     a, b = canon_impl(impl), canon_model(model)
+    if a == "(budget)":
+        return True     # the harness' recording visitor gave up (more than 2M recorded elements): skipped
     if b == "(unmodelled)":
         return True     # outside the modelled domain: skipped (and counted by the callers)
     if a.startswith("(err") and b.startswith("(err"):
